@@ -28,7 +28,7 @@ type Engine struct {
 	cs        *ContractSet
 	effects   map[*ssa.Function]*Effects
 	candCache map[string][]*ssa.Function
-	fnIDs     map[*ssa.Function]int
+	fnIDs     map[string]int
 	tidIDs    map[string]int
 	tidNames  map[int]string
 	monSorts  map[string]string // monitor ghost name -> sort
@@ -38,11 +38,12 @@ type Engine struct {
 	specCache map[string]string
 	modPath   string
 	loadSecs  float64
+	tier      string
 }
 
 func loadEngine(repo, verif string) (*Engine, error) {
 	eng := &Engine{repo: repo, verif: verif, spkgs: map[string]*ssa.Package{}, funcs: map[string]*ssa.Function{},
-		effects: map[*ssa.Function]*Effects{}, candCache: map[string][]*ssa.Function{}, fnIDs: map[*ssa.Function]int{},
+		effects: map[*ssa.Function]*Effects{}, candCache: map[string][]*ssa.Function{}, fnIDs: map[string]int{},
 		tidIDs: map[string]int{}, tidNames: map[int]string{}, monSorts: map[string]string{}, monIface: map[string]string{},
 		ifaceByShort: map[string]types.Type{}, specCache: map[string]string{}, monMode: map[string]string{}}
 	eng.modPath = modulePath(repo)
@@ -80,8 +81,10 @@ func loadEngine(repo, verif string) (*Engine, error) {
 		eng.allFuncs = append(eng.allFuncs, f)
 	}
 	sort.Slice(eng.allFuncs, func(i, j int) bool { return eng.allFuncs[i].String() < eng.allFuncs[j].String() })
-	for i, f := range eng.allFuncs {
-		eng.fnIDs[f] = i + 1
+	for _, f := range eng.allFuncs {
+		if _, ok := eng.fnIDs[f.String()]; !ok {
+			eng.fnIDs[f.String()] = len(eng.fnIDs) + 1
+		}
 	}
 	// address-taken functions of the module (used as values)
 	taken := map[*ssa.Function]bool{}
@@ -91,6 +94,9 @@ func loadEngine(repo, verif string) (*Engine, error) {
 		}
 		for _, b := range f.Blocks {
 			for _, ins := range b.Instrs {
+				if _, isDbg := ins.(*ssa.DebugRef); isDbg {
+					continue
+				}
 				var ops []*ssa.Value
 				ops = ins.Operands(ops)
 				for k, op := range ops {
@@ -112,7 +118,12 @@ func loadEngine(repo, verif string) (*Engine, error) {
 			}
 		}
 	}
+	seenName := map[string]bool{}
 	for f := range taken {
+		if seenName[f.String()] {
+			continue
+		}
+		seenName[f.String()] = true
 		eng.addrTaken = append(eng.addrTaken, f)
 	}
 	sort.Slice(eng.addrTaken, func(i, j int) bool { return eng.addrTaken[i].String() < eng.addrTaken[j].String() })
@@ -120,6 +131,11 @@ func loadEngine(repo, verif string) (*Engine, error) {
 	for _, p := range prog.AllPackages() {
 		for _, m := range p.Members {
 			if t, ok := m.(*ssa.Type); ok {
+				if _, isSig := t.Type().Underlying().(*types.Signature); isSig {
+					if n, ok := t.Type().(*types.Named); ok && strings.HasPrefix(p.Pkg.Path(), eng.modPath) {
+						eng.ifaceByShort[shortTypeName(n)] = t.Type()
+					}
+				}
 				if _, isI := t.Type().Underlying().(*types.Interface); isI {
 					if n, ok := t.Type().(*types.Named); ok {
 						short := shortTypeName(n)
@@ -166,11 +182,12 @@ func (eng *Engine) loadMonitors() {
 }
 
 func (eng *Engine) fnID(f *ssa.Function) int {
-	if id, ok := eng.fnIDs[f]; ok {
+	// thunks of one method exist in several copies: identity is by name
+	if id, ok := eng.fnIDs[f.String()]; ok {
 		return id
 	}
 	id := len(eng.fnIDs) + 1
-	eng.fnIDs[f] = id
+	eng.fnIDs[f.String()] = id
 	return id
 }
 
@@ -278,6 +295,19 @@ func (eng *Engine) findFunc(pkgPath, name string) *ssa.Function {
 	for _, f := range eng.allFuncs {
 		if f.Pkg != nil && f.Pkg.Pkg.Path() == pkgPath && f.RelString(f.Pkg.Pkg) == name {
 			return f
+		}
+	}
+	// T.m as a function value: the method-expression thunk, else the method itself
+	if i := strings.Index(name, "."); i > 0 && !strings.HasPrefix(name, "(") && !strings.Contains(name[i+1:], ".") {
+		for _, alt := range []string{"(" + name[:i] + ")." + name[i+1:] + "$thunk", "(" + name[:i] + ")." + name[i+1:], "(*" + name[:i] + ")." + name[i+1:]} {
+			for _, f := range eng.allFuncs {
+				if f.Pkg != nil && f.Pkg.Pkg.Path() == pkgPath && f.RelString(f.Pkg.Pkg) == alt {
+					return f
+				}
+				if f.Pkg == nil && f.Synthetic != "" && strings.HasSuffix(f.String(), "."+strings.TrimPrefix(alt, "(")) && strings.Contains(f.String(), pkgPath) {
+					return f
+				}
+			}
 		}
 	}
 	// pkgname.Func
@@ -438,4 +468,19 @@ func (eng *Engine) inModule(fn *ssa.Function) bool {
 		return true
 	}
 	return false
+}
+
+// functypeContract returns the contract attached to a named function type (//@ functype T), if any.
+func (eng *Engine) functypeContract(t types.Type) *Contract {
+	n, ok := t.(*types.Named)
+	if !ok || n.Obj().Pkg() == nil {
+		return nil
+	}
+	if _, isSig := n.Underlying().(*types.Signature); !isSig {
+		return nil
+	}
+	for _, c := range eng.cs.ByFunc[n.Obj().Pkg().Path()+"::functype:"+n.Obj().Name()] {
+		return c
+	}
+	return nil
 }
